@@ -30,19 +30,19 @@ def units(bins, tier, seed):
     us = []
     q = tier == "quick"
     for i in range(5 if q else 6):
-        us.append(Unit("c12_upload.parser%d" % i, [b], env={"C12_MODE": "parser", "RC_PARAMS": rc_params(seed * 1000 + i, 900 if q else 35000, 100)}, group="parser", timeout=7200))
+        us.append(Unit("c12_upload.parser%d" % i, [b], env={"C12_MODE": "parser", "RC_PARAMS": rc_params(seed * 1000 + i, 4000 if q else 35000, 100)}, group="parser", timeout=7200))
     for i in range(2):
-        us.append(Unit("c12_upload.enum%d" % i, [b], env={"C12_MODE": "enum", "C12_ENUM": 2 if q else 30, "VERIF_SEED": seed * 10 + i}, group="enum", timeout=7200))
+        us.append(Unit("c12_upload.enum%d" % i, [b], env={"C12_MODE": "enum", "C12_ENUM": 4 if q else 30, "VERIF_SEED": seed * 10 + i}, group="enum", timeout=7200))
     for i in range(4 if q else 4):
-        us.append(Unit("c12_upload.e2e%d" % i, [b], env={"C12_MODE": "e2e", "RC_PARAMS": rc_params(seed * 1000 + 50 + i, 250 if q else 6000, 100)}, group="e2e", timeout=7200))
+        us.append(Unit("c12_upload.e2e%d" % i, [b], env={"C12_MODE": "e2e", "RC_PARAMS": rc_params(seed * 1000 + 50 + i, 1000 if q else 6000, 100)}, group="e2e", timeout=7200))
     for i in range(3 if q else 4):
-        us.append(Unit("c12_upload.reject%d" % i, [b], env={"C12_MODE": "reject", "RC_PARAMS": rc_params(seed * 1000 + 80 + i, 300 if q else 5000, 100)}, group="reject", timeout=7200))
+        us.append(Unit("c12_upload.reject%d" % i, [b], env={"C12_MODE": "reject", "RC_PARAMS": rc_params(seed * 1000 + 80 + i, 1000 if q else 5000, 100)}, group="reject", timeout=7200))
     return us
 
 
 def run(tier, seed):
     return verif.standard(ID, tier, seed, specs(), units, RULE, level=LEVEL,
-                          floor={"parser": 4000, "enum": 2000, "e2e": 900, "reject": 800},
+                          floor={"parser": 15000, "enum": 2000, "e2e": 3000, "reject": 2500},
                           assumptions=["harness multipart encoder is browser-shaped and correct", "echo application serialises files()/post() faithfully (own hex writer)"])
 
 
